@@ -58,10 +58,10 @@ fn gen_chain(g: &mut G, first_path: &str) -> Graph {
             }
         };
         let next = urlref::resolve(&cur, &loc);
-        nodes.push(Node { url: cur.clone(), status, location: Some(loc), form, next: Next::Node(i + 1) });
+        nodes.push(Node { url: cur.clone(), status, location: Some(loc), form, next: Next::Node(i + 1), body_flaw: 0 });
         cur = next;
     }
-    nodes.push(Node { url: cur, status: 200, location: None, form: "final", next: Next::Final });
+    nodes.push(Node { url: cur, status: 200, location: None, form: "final", next: Next::Final, body_flaw: 0 });
     Graph { nodes }
 }
 
